@@ -9,7 +9,7 @@
 (* the rest of the trace is still examined.  The POSTCONDITION checks that *)
 (* every line was consumed.                                                *)
 (***************************************************************************)
-EXTENDS Exchange, Json, IOUtils, TLC
+EXTENDS Exchange, FramingDecision, Json, IOUtils, TLC
 
 Rec == ndJsonDeserialize(IOEnv.TRACE)
 
@@ -31,6 +31,15 @@ Step(e) ==
   CASE e.ev = "reset" ->
          /\ s' = e.s /\ st' = InitState /\ sid' = e.id
          /\ Assert(IsScript(e.s), <<"malformed script in trace", l>>)
+         \* the framing the harness claims by construction must be the one the decision table
+         \* (FramingDecision.tla, the authority) derives from the header tokens it rendered
+         /\ LET d == Decide(e.s.method, e.s.status, e.s.clv, e.s.te) IN
+            Assert(\/ e.s.nocheck
+                   \/ d.f = "unguarded"
+                   \/ d.f = "reject" /\ e.s.reject
+                   \/ /\ d.f = e.s.framing /\ ~e.s.reject
+                      /\ (d.f = "length" /\ e.s.coding = "identity") => d.n = e.s.payloadLen,
+                   <<"harness and FramingDecision disagree", l, e.id, d>>)
     [] e.ev = "rel"   -> st' = AfterRel(st, e.k) /\ UNCHANGED <<s, sid>>
     [] e.ev = "close" -> st' = AfterClose(st) /\ UNCHANGED <<s, sid>>
     [] e.ev = "call"  -> st' = AfterCall(st, e.op, e.buf) /\ UNCHANGED <<s, sid>>
